@@ -254,7 +254,12 @@ class HistGen:
     def g_copy(self, cid, mc, fail):
         nid = self.new_id()
         self.tops = tuple(self.tops) + (nid,)
-        return ["copy", cid, self.rng.choice(self.MECHS), nid]
+        mech = self.rng.choice(self.MECHS)
+        if self.rng.random() < self.p_restart:
+            mech = "xpickle" + self.rng.choice("245")
+        return ["copy", cid, mech, nid]
+
+    p_restart = 0.04
 
     def g_insert_before(self, cid, mc, fail):
         return self._rel("insert_before", cid, mc, fail)
